@@ -71,6 +71,7 @@ def verify_contract(repo: str, con: Any, contracts_by_target: dict[str, Any], mo
         interp = Interp(world, ctx, contracts_by_target, stubs=con.__dict__.get("stubs"),
                         unroll=3 if small else con.__dict__.get("unroll", 6))
         interp.open_findings = open_findings
+        interp.spec_fallback_module = file
         interp.abstract_sort = bool(con.__dict__.get("abstract_sort", False))
         interp.concrete_model = concrete_model
         for relname in con.__dict__.get("modules", []):
